@@ -127,6 +127,19 @@ CLAIMED['C14'] = ('5/C14',
     'scaled limits (3, 9, 4) stand for (5 MiB, 5 GiB, 10000) in the exhaustive part; float '
     'division in the code is exact below 2^53')
 
+CLAIMED['C15'] = ('5/C15',
+    'TLA+ routing specification (Routing.tla over Accepts[op] generated from the installed '
+    'botocore model) checked by TLC against the kwargs of every API call of real runs',
+    'The required routing is a TLA+ predicate over the operation input shapes of the installed '
+    'botocore S3 model plus the exceptions the property lists. Every allowed argument of '
+    'every TransferManager method (and the checksum-steering subsets, client checksum '
+    'defaults, re-used caller dicts, names outside the allow-lists) is run through the real '
+    'front-end in single / multipart / ranged mode with size known or discovered, with a '
+    'real botocore client; TLC checks the captured kwargs of each call against the spec. '
+    'The space is finite and enumerated completely.',
+    'multipart uploads with CRC32C/CRC64NVME full-object checksums are skipped (need awscrt); '
+    'kwargs captured before botocore rewrites them')
+
 REASON_TODO = 'check not built yet (build in progress)'
 
 
